@@ -649,18 +649,18 @@ class M:
                 if not states[p]:
                     for c in a:
                         if not isdel(c):
-                            self.fk[(c, ri)] = p
+                            self.modified[c] = True; self.fk[(c, ri)] = p
                     for c in d:
                         if not fm & DO and self.hasparent_false(c, ri) and not isdel(c):
-                            self.fk[(c, ri)] = None
+                            self.modified[c] = True; self.fk[(c, ri)] = None
                 else:
                     for c in d:
                         if self.hasparent_false(c, ri) and not isdel(c):
-                            self.fk[(c, ri)] = None
+                            self.modified[c] = True; self.fk[(c, ri)] = None
                     if not fm & DL:
                         for c in u:
                             if c not in added_anywhere and not isdel(c):
-                                self.fk[(c, ri)] = None
+                                self.modified[c] = True; self.fk[(c, ri)] = None
             if hb:
                 for c in order:
                     if self.cls[c] != rc or states[c]:
@@ -670,9 +670,9 @@ class M:
                         for x in a:
                             if x is not None and not self.in_session(x):
                                 continue
-                            self.fk[(c, ri)] = x
+                            self.modified[c] = True; self.fk[(c, ri)] = x
                     elif d:
-                        self.fk[(c, ri)] = None
+                        self.modified[c] = True; self.fk[(c, ri)] = None
         for o in order:
             if states[o]:
                 self.rows.pop(o, None)
@@ -1299,7 +1299,7 @@ def oracle(c, obs):
                 for ch in range(n):
                     if objcls[ch] != rc or before["st"][ch] != 2:
                         continue
-                    was = at_flush.get((ch, ri))
+                    was, was_flushed = at_flush.get((ch, ri), (None, False))
                     now = [q for (q, rj), cs in before["coll"].items() if rj == ri and ch in cs]
                     if was is None or now:
                         continue
@@ -1314,7 +1314,10 @@ def oracle(c, obs):
                     if any(ch in cs for (q, rj), cs in before["coll"].items() if before["st"][q] in _IN):
                         continue  # still a member of another in-session collection: the unit of work may keep it
                     if after["st"][ch] != 3 or ch in rws:
-                        return "object %d was removed from delete-orphan collection r%d of %d and not re-associated, but is not deleted by the flush" % (ch, ri, was)
+                        # F5: the membership was never flushed (the parent was outside the session at the last
+                        # flush) and there is no backref that would make the child dirty
+                        tag = "F5: " if (not was_flushed and not hb) else ""
+                        return "%sobject %d was removed from delete-orphan collection r%d of %d and not re-associated, but is not deleted by the flush" % (tag, ch, ri, was)
             # nothing marked for deletion survives unless it was re-added to a collection
             for x in before["mk"]:
                 if before["st"][x] == 2 and not any(x in cs for (q, rj), cs in before["coll"].items()):
@@ -1340,7 +1343,7 @@ def oracle(c, obs):
             at_flush = {}
             for (q, ri), cs in after["coll"].items():
                 for ch in cs:
-                    at_flush[(ch, ri)] = q
+                    at_flush[(ch, ri)] = (q, after["st"][q] in _IN)
     return None
 
 
@@ -1353,6 +1356,8 @@ def match_finding(c, what):
         return "C39-delete-cancelled-by-pending-parent"
     if what.startswith("F4:"):
         return "C39-reparented-outside-session-dangling-row"
+    if what.startswith("F5:"):
+        return "C39-unflushed-membership-orphan-survives"
     return None
 
 
